@@ -62,3 +62,14 @@ Proof. exact built_order_independent. Qed.
 From Verif Require Import Gen.Sites.
 Theorem C06_no_store_shares_a_list_or_map : aliasing_stores = [] /\ (12 <= length store_sites)%nat.
 Proof. split; [vm_compute; reflexivity|vm_compute; repeat constructor]. Qed.
+
+(* determinism across calls on one builder object and across goroutines: nothing outside the arguments can influence a
+   build — no package-level variable holds data and the builder has no cache field (run/gen_globals.py -> Gen/Globals.v,
+   regenerated from the working tree on every run) *)
+From Verif Require Import Gen.Globals.
+Theorem C06_no_state_outside_the_arguments :
+  stateful_globals = [] /\
+  filter (fun p => str_eqb (fst p) (lit "WeightedAuthorizationModelGraphBuilder")) builder_fields =
+    [(lit "WeightedAuthorizationModelGraphBuilder", lit "DirectedMultigraphBuilder");
+     (lit "WeightedAuthorizationModelGraphBuilder", lit "drawingDirection")].
+Proof. split; vm_compute; reflexivity. Qed.
